@@ -231,3 +231,78 @@ func infeasibleEdge(b *ssa.BasicBlock, succ int) bool {
 	}
 	return false
 }
+
+// phiDecided reports whether, having entered block b from pred, the succ-th edge of b's If is
+// impossible because the condition is a phi of b whose incoming value on that edge is a boolean
+// constant (the lowering of && and ||).
+func phiDecided(b, pred *ssa.BasicBlock, succ int) bool {
+	if pred == nil {
+		return false
+	}
+	ifi, ok := b.Instrs[len(b.Instrs)-1].(*ssa.If)
+	if !ok || b.Succs[0] == b.Succs[1] {
+		return false
+	}
+	nc := normCond(ifi, ifi.Cond, true)
+	ph, ok := nc.V.(*ssa.Phi)
+	if !ok || ph.Block() != b {
+		return false
+	}
+	for i, p := range b.Preds {
+		if p != pred {
+			continue
+		}
+		val, isC := ConstBool(ph.Edges[i])
+		if !isC {
+			return false
+		}
+		// phi == val on this path; successor 0 is taken when cond true; nc.Taken tells whether cond==phi or cond==!phi
+		condVal := val
+		if !nc.Taken {
+			condVal = !val
+		}
+		takenSucc := 1
+		if condVal {
+			takenSucc = 0
+		}
+		return succ != takenSucc
+	}
+	return false
+}
+
+// Disjuncts resolves the value of `a || b || ...` (lowered by go/ssa to a phi with constant-true
+// edges) into its operand values; a plain value is its own single disjunct.
+func Disjuncts(v ssa.Value) []ssa.Value { return junctions(v, true, 0) }
+
+// Conjuncts resolves `a && b && ...` (phi with constant-false edges).
+func Conjuncts(v ssa.Value) []ssa.Value { return junctions(v, false, 0) }
+
+func junctions(v ssa.Value, or bool, depth int) []ssa.Value {
+	ph, ok := v.(*ssa.Phi)
+	if !ok || depth > 6 {
+		return []ssa.Value{v}
+	}
+	var out []ssa.Value
+	for i, e := range ph.Edges {
+		if b, isC := ConstBool(e); isC && b == or {
+			pred := ph.Block().Preds[i]
+			// walk back through empty forwarding blocks
+			for len(pred.Instrs) == 1 && len(pred.Preds) == 1 {
+				if _, isJump := pred.Instrs[0].(*ssa.Jump); !isJump {
+					break
+				}
+				pred = pred.Preds[0]
+			}
+			ifi, isIf := pred.Instrs[len(pred.Instrs)-1].(*ssa.If)
+			if !isIf {
+				return []ssa.Value{v}
+			}
+			out = append(out, junctions(ifi.Cond, or, depth+1)...)
+			continue
+		} else if isC {
+			return []ssa.Value{v}
+		}
+		out = append(out, junctions(e, or, depth+1)...)
+	}
+	return out
+}
